@@ -56,6 +56,8 @@ func corpus() []string {
 		`{"n":9007199254740993,"m":[123456789012345678]}`, `1.000000000000000000000001`, `12345678901234567890.123456789`,
 		" \t\r\n{ \"a\" : [ 1 , 2 ] } \r\n", "[\n1\n,\n2\n]",
 		`{"//":"c","a":1}`,
+		// characters that form a grapheme cluster with the following quote / delimiter (Unicode Prepend, ZWJ, combining marks)
+		"[\"a\u0600\",1]", "\"\u0600\"", "{\"k\u0600\":\"v\u0301\"}", "[\"\u200d\",\"e\u0301\"]", "\"a\u0600\" ",
 		`{"a":"b","c":{"d":["e",{"f":null}]}}`,
 	}
 	docs = append(docs, strings.Repeat("[", 64)+strings.Repeat("]", 64))
